@@ -142,6 +142,77 @@ theorem link_fail_clean (sc : Script) (hok : ∀ ps ∈ sc.pipes, OkPipe ps) (hl
 
 /-! ## close-on-exec / close discipline of `spawnphase` -/
 
+/-- every list of pipelines in which one fails splits at the FIRST failing one -/
+theorem first_failure (l : List PipeScript) (hfair : ∀ ps ∈ l, Fair ps)
+    (hfail : ∃ ps ∈ l, failsB ps = true) :
+    ∃ pre ps post, l = pre ++ ps :: post ∧ (∀ x ∈ pre, OkPipe x) ∧ failsB ps = true := by
+  induction l with
+  | nil => obtain ⟨ps, hm, _⟩ := hfail; cases hm
+  | cons a r ih =>
+    by_cases ha : failsB a = true
+    · exact ⟨[], a, r, rfl, (by intro x hx; cases hx), ha⟩
+    · have hr : ∃ ps ∈ r, failsB ps = true := by
+        obtain ⟨ps, hm, hf⟩ := hfail
+        rcases List.mem_cons.mp hm with rfl | hm
+        · exact absurd hf ha
+        · exact ⟨ps, hm, hf⟩
+      obtain ⟨pre, ps, post, e, hpre, hf⟩ := ih (fun x hx => hfair x (List.mem_cons_of_mem _ hx)) hr
+      refine ⟨a :: pre, ps, post, by rw [e]; rfl, ?_, hf⟩
+      intro x hx
+      rcases List.mem_cons.mp hx with rfl | hx
+      · exact ⟨hfair _ List.mem_cons_self, by simpa using ha⟩
+      · exact hpre x hx
+
+/-- C18 without a side condition on where the failure is: whichever pipeline of the command line
+contains a tool that cannot be started, exits non-zero or is killed — however many of them do —
+the driver exits 1, the link step is never started, no temporary is left and no stage process is
+left unreaped.  (`fail_safe` applied at the first failing pipeline, which `first_failure` finds.) -/
+theorem any_failure_fails (sc : Script) (hfair : ∀ ps ∈ sc.pipes, Fair ps)
+    (hfail : ∃ ps ∈ sc.pipes, failsB ps = true) :
+    (run sc).exit = some 1 ∧ (run sc).linkSpawned = false ∧ (run sc).files.temps = [] ∧ (run sc).live = [] := by
+  obtain ⟨pre, ps, post, e, hpre, hf⟩ := first_failure sc.pipes hfair hfail
+  have hfp : Fair ps := hfair ps (by rw [e]; simp)
+  obtain ⟨a, b, c, _, d⟩ := fail_safe sc pre post ps ⟨e, hpre⟩ hfp hf
+  exact ⟨a, b, c, d⟩
+
+/-- The exit status says exactly whether everything succeeded: under fair schedules the driver
+exits 0 iff no tool of any pipeline failed and (when linking) the linker was started and exited 0;
+otherwise it exits 1.  No third status, and never "0 although something failed". -/
+theorem exit_zero_iff (sc : Script) (hfair : ∀ ps ∈ sc.pipes, Fair ps) :
+    ((run sc).exit = some 0 ↔
+      (∀ ps ∈ sc.pipes, failsB ps = false) ∧ (sc.link = true → sc.linkSpawnOk = true ∧ sc.linkStatus = .ok)) ∧
+    ((run sc).exit = some 0 ∨ (run sc).exit = some 1) := by
+  by_cases hall : ∀ ps ∈ sc.pipes, failsB ps = false
+  · have hok : ∀ ps ∈ sc.pipes, OkPipe ps := fun ps h => ⟨hfair ps h, hall ps h⟩
+    by_cases hl : sc.link = true → sc.linkSpawnOk = true ∧ sc.linkStatus = .ok
+    · have h0 := (success_clean sc hok hl).1
+      exact ⟨⟨fun _ => ⟨hall, hl⟩, fun _ => h0⟩, Or.inl h0⟩
+    · have hlt : sc.link = true := by
+        by_cases h : sc.link = true
+        · exact h
+        · exact absurd (fun h' => absurd h' h) hl
+      have hbad : sc.linkSpawnOk = false ∨ sc.linkStatus = .fail := by
+        by_cases h1 : sc.linkSpawnOk = true
+        · right
+          cases h2 : sc.linkStatus with
+          | fail => rfl
+          | ok => exact absurd (fun _ => ⟨h1, h2⟩) hl
+        · left; simpa using h1
+      have h1 := (link_fail_clean sc hok hlt hbad).1
+      refine ⟨⟨fun h => ?_, fun h => absurd h.2 hl⟩, Or.inr h1⟩
+      rw [h1] at h; cases h
+  · have hex : ∃ ps ∈ sc.pipes, failsB ps = true := by
+      apply Classical.byContradiction
+      intro hne
+      apply hall
+      intro ps hm
+      cases hb : failsB ps with
+      | false => rfl
+      | true => exact absurd ⟨ps, hm, hb⟩ hne
+    have h1 := (any_failure_fails sc hfair hex).1
+    refine ⟨⟨fun h => ?_, fun h => absurd h.1 hall⟩, Or.inr h1⟩
+    rw [h1] at h; cases h
+
 /-- After any number `m ≤ n` of stages of an `n`-stage pipeline have been spawned, stage `i`
 holds exactly the read end of pipe `i-1` (its stdin) and the write end of pipe `i` (its stdout)
 — nothing else — and the driver holds at most ONE descriptor: the close-on-exec read end it is
@@ -217,6 +288,14 @@ example : Prefix witnessLaterFailure [pipeGood] pipeBad [] ∧ Fair pipeBad ∧ 
 
 example : (run witnessLaterFailure).files.temps = [] ∧ (run witnessLaterFailure).exit = some 1 ∧
     (run witnessLaterFailure).signalled = [(1, 0), (1, 1), (1, 3)] := by decide
+
+/-- two failing pipelines on one command line: `any_failure_fails` applies (no `Prefix` needed) -/
+def witnessTwoFailures : Script :=
+  { link := true, pipes := [pipeGood, pipeBad, pipeBad], linkSpawnOk := true, linkStatus := .ok, linkCreated := true }
+
+example : (∀ ps ∈ witnessTwoFailures.pipes, Fair ps) ∧ (∃ ps ∈ witnessTwoFailures.pipes, failsB ps = true) ∧
+    (run witnessTwoFailures).exit = some 1 := by
+  refine ⟨by decide, ⟨pipeBad, by decide, by decide⟩, by decide⟩
 
 /-- a linker that cannot be spawned (former finding, same fix) -/
 def witnessLinkSpawn : Script :=
